@@ -352,5 +352,6 @@ SWEEP = ["concurrent/test_transient_hash_table.cpp"]
 # name anchors (validated by tools/rename_sweep.py; a vanished name is exit 2, see core.check_anchor_names)
 ANCHORS = {
     '_bucket_mask': ['^babylon::ConcurrentFixedSwissTable(<|$)'],
+    '_controls': ['^babylon::ConcurrentFixedSwissTable(<|$)', '^babylon::internal::concurrent_transient_hash_table::Group(<|$)'],
     '_size': ['^babylon::ConcurrentFixedSwissTable(<|$)'],
 }
